@@ -212,3 +212,18 @@ fn largest_cluster(mut points: Vec<SpacePoint>, max_distance: Length) -> Vec<Spa
         .max_by_key(|c| c.len())
         .unwrap_or_default()
 }
+
+// Verification hooks (only compiled with `--cfg alpha_g_verif`).
+#[cfg(alpha_g_verif)]
+pub(crate) fn verif_hough_bins(point: SpacePoint, rho_bins: u32, theta_bins: u32) -> Vec<(u32, u32)> {
+    HoughSpaceAccumulator {
+        rho_bins,
+        theta_bins,
+        accumulator: IndexMap::new(),
+    }
+    .get_bins(point)
+}
+#[cfg(alpha_g_verif)]
+pub(crate) fn verif_largest_cluster(points: Vec<SpacePoint>, max_distance: Length) -> Vec<SpacePoint> {
+    largest_cluster(points, max_distance)
+}
